@@ -310,4 +310,83 @@ theorem sub_trans_aux (g : Graph) (hconv : GenericsConvex g) : ∀ (n : Nat) (A 
         exact ⟨ih x y z (by omega) wx wy wz fy hxy.1 hyz.1, ih z y x (by omega) wz wy wx fy hyz.2 hxy.2⟩
       · rfl
 
+/-! ### strict ⇒ lenient -/
+theorem all2_imp_mem {f f' : Ty → Ty → Bool} : ∀ {as bs : List Ty},
+    (∀ a ∈ as, ∀ b ∈ bs, f a b = true → f' a b = true) → all2 f as bs = true → all2 f' as bs = true
+  | [], [], _, _ => rfl
+  | [], _ :: _, _, h => by simp [all2] at h
+  | _ :: _, [], _, h => by simp [all2] at h
+  | a :: as, b :: bs, hm, h => by
+    simp only [all2, Bool.and_eq_true] at h ⊢
+    exact ⟨hm a (by simp) b (by simp) h.1,
+      all2_imp_mem (fun x hx y hy => hm x (by simp [hx]) y (by simp [hy])) h.2⟩
+
+/-- `is_subtype(L, R)` ⇒ `is_maybe_subtype(L, R)` (the two visitors differ only in `visit_union_type`,
+`all` vs `any` over a non-empty union). -/
+theorem sub_lenient_of_strict_aux (g : Graph) (v : Bool) : ∀ (n : Nat) (L R : Ty), L.size + R.size ≤ n →
+    L.wf g = true → R.wf g = true → sub g false v L R = true → sub g true v L R = true := by
+  intro n
+  induction n with
+  | zero => intro L _ h; have := L.size_pos; omega
+  | succ n ih =>
+    intro L R hn hL hR h
+    have right_union : ∀ rs, R = .union rs → L.isUnion = false → sub g true v L R = true := by
+      intro rs hrs hLu
+      subst hrs
+      rw [sub_union_right g _ _ L rs hLu] at h ⊢
+      obtain ⟨r, hr, h'⟩ := List.any_eq_true.mp h
+      have := size_le_sizeL hr; simp only [Ty.size] at hn
+      exact List.any_eq_true.mpr ⟨r, hr, ih L r (by omega) hL ((wf_union.mp hR).2 r hr) h'⟩
+    cases L with
+    | union ls =>
+      by_cases hRa : R = .any
+      · subst hRa; exact sub_any_right g _ _ _
+      · rw [sub_union_left g _ _ ls R hRa] at h ⊢
+        simp only [Bool.false_eq_true, if_false, if_true] at h ⊢
+        obtain ⟨hne, hall⟩ := wf_union.mp hL
+        obtain ⟨l, hl⟩ := List.exists_mem_of_ne_nil _ hne
+        have := size_le_sizeL hl; simp only [Ty.size] at hn
+        exact List.any_eq_true.mpr ⟨l, hl, ih l R (by omega) (hall l hl) hR (List.all_eq_true.mp h l hl)⟩
+    | any =>
+      cases R with
+      | union rs => exact right_union rs rfl rfl
+      | _ => rw [sub_unfold]; rfl
+    | none =>
+      cases R with
+      | union rs => exact right_union rs rfl rfl
+      | _ => rw [sub_unfold] at h ⊢; exact h
+    | tuple k as =>
+      cases R with
+      | union rs => exact right_union rs rfl rfl
+      | tuple k' bs =>
+        rw [sub_tuple_tuple] at h ⊢
+        simp only [Bool.and_eq_true] at h ⊢
+        refine ⟨h.1, all2_imp_mem ?_ h.2⟩
+        intro a ha b hb hab
+        have := size_le_sizeL ha; have := size_le_sizeL hb; simp only [Ty.size] at hn
+        exact ih a b (by omega) (wf_tuple.mp hL a ha) (wf_tuple.mp hR b hb) hab
+      | _ => rw [sub_unfold] at h ⊢; exact h
+    | inst c as =>
+      cases R with
+      | union rs => exact right_union rs rfl rfl
+      | inst d bs =>
+        rw [sub_inst_inst] at h ⊢
+        simp only [Bool.and_eq_true] at h ⊢
+        refine ⟨h.1, ?_⟩
+        have h2 := h.2
+        split at h2
+        · rename_i hc
+          rw [if_pos hc]
+          refine all2_imp_mem ?_ h2
+          intro a ha b hb hab
+          have := size_le_sizeL ha; have := size_le_sizeL hb; simp only [Ty.size] at hn
+          simp only [Bool.and_eq_true, Bool.or_eq_true] at hab ⊢
+          refine ⟨ih a b (by omega) ((wf_inst hL).2 a ha) ((wf_inst hR).2 b hb) hab.1, ?_⟩
+          rcases hab.2 with hv | hba
+          · exact Or.inl hv
+          · exact Or.inr (ih b a (by omega) ((wf_inst hR).2 b hb) ((wf_inst hL).2 a ha) hba)
+        · rename_i hc
+          rw [if_neg hc]
+      | _ => rw [sub_unfold] at h ⊢; exact h
+
 end PynguinModel.Types
